@@ -64,7 +64,7 @@ theorem C20_eager_enc_no_fault {B P n : Nat} {h : Nat → Nat} (hP1 : 1 ≤ P) (
   exact ⟨_, fastCdf_eq ok hf, fun s => ⟨_, eagerEnc_eq ok hf tb.mono s⟩⟩
 
 /-- **C20, lazy model**: neither `expect` can fail, no `+` overflows, for every skip count
-    admitted by TB-F2 -/
+    allowed by TB-F2 -/
 theorem C20_lazy_no_fault {B P n : Nat} {h : Nat → Nat} {k0 : Nat → Nat} (hP1 : 1 ≤ P)
     (hPB : P ≤ B) (hB : B ≤ 64) (hlen : lenOk P n = true) (tb : TBF1Fast h n)
     (t2 : TBF2 P n (freeWeight B P n) h k0) :
